@@ -180,7 +180,23 @@ func checkC20Variant(P *Program, r *Result, variant string) {
 	s2bBuiltin := func(fn *ssa.Function) verdict {
 		v := verdict{detail: "result is not unsafe.Slice(unsafe.StringData(s), len(s))"}
 		if ret := singleReturn(fn); ret != nil && len(ret.Results) == 1 {
-			if c := builtinCall(ret.Results[0], "Slice"); c != nil {
+			res := ret.Results[0]
+			// x[:len(s)] / x[:len(s):len(s)] of a slice that already has length and capacity len(s) is x
+			for {
+				sl, ok := res.(*ssa.Slice)
+				if !ok || sl.Low != nil || sl.High == nil {
+					break
+				}
+				isLen := func(x ssa.Value) bool {
+					l := builtinCall(x, "len")
+					return l != nil && l.Common().Args[0] == ssa.Value(fn.Params[0])
+				}
+				if !isLen(sl.High) || (sl.Max != nil && !isLen(sl.Max)) {
+					break
+				}
+				res = sl.X
+			}
+			if c := builtinCall(res, "Slice"); c != nil {
 				if d := builtinCall(c.Common().Args[0], "StringData"); d != nil && d.Common().Args[0] == ssa.Value(fn.Params[0]) {
 					v.ptr = true
 				}
